@@ -3,6 +3,8 @@ have been observed for a 'held' verdict, and how the evidence is written."""
 from vdriver import Job, NCPU
 
 ENGINES = {
+    'h_array': dict(tulz=['none'], setup_variants=['asan'],
+                    kind='lock-step std::vector model + lifetime registry over seeded Array histories, ASan/UBSan/LSan'),
     'h_ring': dict(tulz=['none'], cflags=['-fno-access-control'], setup_variants=['asan'],
                    kind='lock-step bounded-deque model + lifetime registry over seeded RingBuffer histories, ASan/UBSan/LSan'),
     'h_rwlock': dict(tulz=['resource'], spy=True, schedule_sensitive=True, setup_variants=['mon', 'mon-ndebug']),
@@ -201,3 +203,24 @@ SPECS['C09'] = dict(
     manifest=dict(engine='h_ring', text='Lifetime registry reconciled after every operation (which object each constructor, assignment and destructor ran on), plus ASan heap checks '
                   'and LeakSanitizer, over seeded histories that concentrate on shrinking resize of wrapped buffers and copy assignment onto used buffers.',
                   note=SAN_NOTE, technique='runtime monitoring: object-lifetime registry + ASan/LSan over model-generated histories'))
+
+
+SPECS['C14'] = dict(
+    title='Array value semantics',
+    jobs=model_jobs('h_array', 'C14', (40000, 1500000), vg_cases=4000),
+    require={'any': {'histories': 5000, 'nontrivialCases': 2000, 'zeroLength': 500, 'trackedDtors': 50000}},
+    evidence=lambda agg, samples, distinct, tier: cov(
+        agg.get('histories', 0), distinct,
+        'case = seeded history (1-80 operations, up to 4 live arrays, lengths 0-64) over every construction path (pointer+length copied, pointer+length adopted, '
+        'initializer list, size, size+value, default), copy/move construction and assignment, self-assignment, swap, both resize overloads, element writes through '
+        '[]/front/back/iterators, destruction; element types int, double, unsigned char, lifetime-tracked class, std::string (no resize: not bitwise relocatable). '
+        'After every operation size, every determinate element, iteration, storage independence and the lifetime registry are reconciled. '
+        'non-trivial = class-type pointer+length construction, a copy of a non-empty array or a size-changing resize; distinct = distinct histories',
+        samples, observed=pick(agg, 'histories', 'ops', 'nontrivialCases', 'stateComparisons', 'zeroLength', 'trackedCtors', 'trackedDtors', 'trackedMoves'),
+        operations=agg.get('opCount', {}), construction_lengths=agg.get('lengths', {})),
+    assumptions=['elements of arithmetic type added by Array(n)/resize(n) are indeterminate by design and are not read',
+                 'a moved-from Array is only destroyed or assigned to',
+                 'front()/back() only on non-empty arrays; pointer+length adoption (copy=false) is given malloc storage holding constructed elements'],
+    manifest=dict(engine='h_array', text='Lock-step comparison with a std::vector model after every operation plus the object-lifetime registry and ASan/LSan, over seeded histories '
+                  'that exercise every construction path including pointer+length for class types and length 0.',
+                  note=SAN_NOTE, technique='runtime monitoring: lock-step reference model + lifetime registry under ASan/UBSan/LSan'))
